@@ -20,6 +20,7 @@ macro_rules! props {
 }
 
 pub mod common;
+pub mod inst;
 pub mod c15_scale;
 
 props! {
